@@ -410,3 +410,36 @@ Definition mgcase_spec (c : mgcase) : bool :=
   | None => true
   end.
 Definition check_mgcases := check_cases mgcase_agree mgcase_spec.
+
+(* ---------- EntitiesDescriptor: the group-level validUntil / cacheDuration ---------- *)
+(* *time.Time through RelaxedTime and *time.Duration through Duration (alias
+   struct of EntitiesDescriptor.MarshalXML / UnmarshalXML); nil stays nil *)
+Definition norm_opt_instant (o : option Z) : outcome (option Z) :=
+  match o with None => Ok None | Some t => do t' <- norm_instant t; Ok (Some t') end.
+Definition norm_opt_duration (o : option Z) : outcome (option Z) :=
+  match o with None => Ok None | Some d => do d' <- norm_duration d; Ok (Some d') end.
+
+(* group case: the two scalars of an EntitiesDescriptor; observed after
+   xml.Marshal BY VALUE -> xml.Unmarshal: re-parsed?, the scalars; whether the
+   by-value and by-pointer encodings are the same bytes at top level, nested in
+   a slice and as a struct field; whether every contained EntityDescriptor came
+   back as its own one-generation value *)
+Record egcase := {
+  eg_valid_until : option Z; eg_cache : option Z;
+  eg_ok : bool; eg_valid_until_out : option Z; eg_cache_out : option Z;
+  eg_same_bytes : bool; eg_members_ok : bool }.
+Definition opt_oZ_eq (a : outcome (option Z)) (ok : bool) (b : option Z) : bool :=
+  match a with Ok x => ok && opt_Z_eq x b | _ => negb ok end.
+Definition egcase_agree (c : egcase) : bool :=
+  match norm_opt_instant (eg_valid_until c), norm_opt_duration (eg_cache c) with
+  | Ok v, Ok d => eg_ok c && opt_Z_eq v (eg_valid_until_out c) && opt_Z_eq d (eg_cache_out c)
+  | _, _ => negb (eg_ok c)
+  end.
+(* the group round-trips: instant to the millisecond, duration exactly, every
+   encoding route gives the same text, members are their own generation *)
+Definition egcase_spec (c : egcase) : bool :=
+  eg_ok c
+  && opt_Z_eq (eg_valid_until_out c) (option_map round_ms (eg_valid_until c))
+  && opt_Z_eq (eg_cache_out c) (eg_cache c)
+  && eg_same_bytes c && eg_members_ok c.
+Definition check_egcases := check_cases egcase_agree egcase_spec.
